@@ -380,6 +380,7 @@ def keyword_action(w: str) -> bool:
 
 
 KW_ALPHA = 'inot_1é'
+WORD_SHAPE = re.compile(r'[^\W\d]\w*')      # documented keyword shape: a letter or underscore, then word characters
 OP_WORDS = sorted(k for k in (OWNER._operators_table if OWNER is not None else {}) if k[:1].isalpha())
 
 
@@ -402,7 +403,9 @@ def keyword_verdict(w):
         return r == ('ok', CONSTS[w]) and (r[1] is CONSTS[w])
     if w.startswith('__'):
         return r[0] == 'err' and r[1] == 'YaqlLexicalException'
-    if RX_KW.fullmatch(w) is not None:
+    if WORD_SHAPE.fullmatch(w) is not None:        # identifier-shaped word (reference independent of the live lexer regex)
+        if r[0] != 'ok':
+            return False
         st = yq.ENG(w)
         return r[0] == 'ok' and same_str(r[1], w) and isinstance(st.expression, E.KeywordConstant)
     if w[:1].isdigit():
@@ -420,7 +423,7 @@ def keyword_words(k: int) -> bool:
     return H.done(ok)
 
 
-WORDS = ['true', 'false', 'null', 'True', 'NULL', 'nulls', 'truth', 'android', 'inner', 'notable', 'orb', 'modulo', '_', '_x',
+WORDS = ['true', 'false', 'null', 'True', 'NULL', 'nulls', 'truth', 'android', 'inner', 'notable', 'orb', 'modulo', '_', '_x', '_1', '_1a', '_0_',
          'x__y', '__x', '__', '___', 'a__', 'x1', 'élan', 'Ünï', 'if', 'else', 'None', 'nil', 'nan', 'inf', 'e10', 'x_', 'a' * 300]
 
 
